@@ -55,6 +55,11 @@ fad21fb C01
 8f26b42 C09
 1327c37 C20
 1102769 C12
+c100c32 C14
+e9ec943 C11
+7e36fb9 C01
+2992064 C09
+09ce5fb C11
 L
 fi
 mv $out.tmp $out
